@@ -473,6 +473,13 @@ V("flags-stack-wrong-extent", "break", ["C16"], BS,
   "self.not_entailed_propagators_stack = np.empty((stack_max_height, self.problem.propagator_nb), dtype=np.bool)",
   "self.not_entailed_propagators_stack = np.empty((stack_max_height, self.problem.shr_domain_nb), dtype=np.bool)", "flags stack sized by the number of domains", "__init__")
 
+V("init-indices-astype", "break", ["C19"], PB,
+  "self.dom_indices_arr = np.array(self.dom_indices_lst, dtype=np.uint16)", "self.dom_indices_arr = np.asarray(self.dom_indices_lst).astype(np.uint16)",
+  "indices >= 65536 wrap instead of being refused", "init")
+V("init-indices-astype-not-other-props", "neutral", ["C01", "C08", "C13", "C15"], PB,
+  "self.dom_indices_arr = np.array(self.dom_indices_lst, dtype=np.uint16)", "self.dom_indices_arr = np.asarray(self.dom_indices_lst).astype(np.uint16)",
+  "the wrapping conversion is a capacity matter (C19) only: in range, the arrays are identical")
+
 # ------------------------------------------------------------------------------------------------ global state
 V("solver-init-skipped", "break", ["C15"], SV,
   "            problem.init()\n", "            if getattr(problem, 'triggers', None) is None:\n                problem.init()\n",
